@@ -418,5 +418,65 @@ func main() {
 			t.Outcome("independent")
 			t.Note(fmt.Sprintf("%d prior calls (succeeding, failing at the header or payload write, decoding cut or invalid input) x 2 poison headers, each followed by encode/compile/decode of 1152 headers; pools (gobwas/pool and any declared in gobwas/ws) on a deterministic LIFO free list, emptied before each case", len(priors)))
 		})
+
+		// A transient transport error (Temporary() == true) in the middle of a header: a decoder
+		// either reports an error, or - if it chooses to carry on - returns exactly the header
+		// that is on the wire and consumes exactly its bytes. It never returns a header made of
+		// shifted bytes.
+		r.Part("E5-transient-read-error-inside-header", func(t *explore.T) {
+			var hs []refmodel.Hdr
+			for _, ln := range []uint64{0, 5, 125, 126, 300, 65535, 65536, 1 << 40} {
+				for _, masked := range []bool{false, true} {
+					hs = append(hs, refmodel.Hdr{Fin: true, Op: 2, Masked: masked, Mask: masks[1], Len: ln}, refmodel.Hdr{Fin: false, Rsv: 5, Op: 9, Masked: masked, Mask: masks[2], Len: ln})
+				}
+			}
+			for _, h := range hs {
+				enc := refmodel.HdrEncode(h)
+				// the bytes behind the header look like another header with other values
+				data := append(append([]byte{}, enc...), 0x81, 0xfe, 0x12, 0x34, 0x9a, 0xbc, 0xde, 0xf0, 0x01, 0x02, 0x03, 0x04, 0x05, 0x06, 0x07, 0x08)
+				for at := 0; at <= len(enc); at++ {
+					for _, timeout := range []bool{false, true} {
+						for di, dname := range []string{"ReadHeader", "NextFrame", "ReadFrame"} {
+							h, at, timeout, di, dname := h, at, timeout, di, dname
+							t.Do(func() string {
+								return fmt.Sprintf("%s hdr %s: transient error (timeout=%v) after %d of %d header bytes", dname, h, timeout, at, len(enc))
+							}, func() *explore.Fail {
+								if dname == "ReadFrame" && h.Len > 16 {
+									return nil
+								}
+								src := env.NewSrc(data)
+								src.HiccupAt, src.HiccupErr = at, env.TempErr{IsTimeout: timeout}
+								var g ws.Header
+								var err error
+								switch di {
+								case 0:
+									g, err = ws.ReadHeader(src)
+								case 1:
+									rd := &wsutil.Reader{Source: src, SkipHeaderCheck: true}
+									g, err = rd.NextFrame()
+								case 2:
+									var f ws.Frame
+									f, err = ws.ReadFrame(src)
+									g = f.Header
+								}
+								if err != nil {
+									t.Outcome("error-reported")
+									return nil
+								}
+								wantUsed := len(enc)
+								if di == 2 {
+									wantUsed += int(h.Len)
+								}
+								if !sameHdr(g, h) || src.Off != wantUsed {
+									return explore.Failf("header-from-shifted-bytes-after-transient-error:"+dname, "returned %+v consuming %d bytes; on the wire: %s (%d bytes)", g, src.Off, h, wantUsed)
+								}
+								t.Outcome("carried-on-correctly")
+								return nil
+							})
+						}
+					}
+				}
+			}
+		})
 	})
 }
